@@ -24,6 +24,12 @@ def make_case(rng, idx):
         return ({"id": idx, "entry": "attr", "attr": attr, "item": G.render(item), "expect_item": exp},
                 {"kind": "impl", "derived": derived, "erring": erring})
     item, derived = G.gen_type_item(rng)
+    if item["kind"] == "enum" and idx % 3 == 0:
+        # explicit discriminants also on variants that have fields (`#[repr(u8)] enum E { A(u8) = 1, B { x: u8 } = 4 }`); decided
+        # from the case index, without a draw, so that the rest of the stream stays what it was
+        for i, v in enumerate(item["variants"]):
+            if (idx // 3 + i) % 2 == 0:
+                v["disc"] = f"= {i * 3 + 1}"
     elems, shared = G.gen_trait_args(rng, derived)
     erring = False
     late = False
